@@ -28,11 +28,69 @@ def state_known(st):
     return z3.Or(*[st.f["state"].t == sc(x) for x in ("SETUP_STATE", "IDLE_STATE", "PROCESSING_STATE", "BLOCKED_STATE")])
 
 
+STATES4 = ("SETUP_STATE", "IDLE_STATE", "PROCESSING_STATE", "BLOCKED_STATE")
+
+
+def acc_clauses(st):
+    """C17 for Splitter/Combiner: the clock of the state accounting runs from construction (A-start: time 0) and the
+    per-state totals add up to the time of the last state change"""
+    f = st.f
+    last = f["stats.last_state_change_time"]
+    tot = sum(f[TT + s_].t for s_ in STATES4)
+    return [("I-acc.clock-started", z3.Not(last.isnone)),
+            ("I-acc.states-sum-to-last-change", z3.Implies(z3.Not(last.isnone), tot == last.val.t)),
+            ("I-acc.last-change-in-the-past", z3.Implies(z3.Not(last.isnone), last.val.t <= st.now)),
+            ("I-acc.nonneg", z3.And(*[f[TT + s_].t >= 0 for s_ in STATES4]))]
+
+
+def acc_ok(st):
+    return z3.And(*[cl for _, cl in acc_clauses(st)])
+
+
+def mk_final_sc(lib, cls):
+    """update_final_state_time(T) of Splitter/Combiner: the open interval is charged to the current state, after which
+    the four totals add up to T; never raises (the clock is started at construction)"""
+    def post(c):
+        o, n = c.old, c.new
+        T = c.args["simulation_end_time"].t
+        last = o.f["stats.last_state_change_time"]
+        cur = o.f["state"]
+        items = []
+        for s_ in STATES4:
+            items.append(Clause("charges-the-open-interval-to-the-current-state." + s_, lambda c, s_=s_: n.f[TT + s_].t == z3.If(
+                cur.t == sc(s_), o.f[TT + s_].t + (T - last.val.t), o.f[TT + s_].t), ("C17",)))
+        items.append(Clause("totals-add-up-to-T", lambda c: sum(n.f[TT + s_].t for s_ in STATES4) == T, ("C17",)))
+        items.append(Clause("totals-nonneg", lambda c: z3.And(*[n.f[TT + s_].t >= 0 for s_ in STATES4]), ("C17",)))
+        return items
+    con = FnContract(
+        "update_final_state_time", [("simulation_end_time", ("num", "real"), None)],
+        pre=lambda st, args: [("state-known", state_known(st)), ("finalised-at-the-current-time",
+                                                                 args["simulation_end_time"].t == st.now),
+                              ("occupancy", z3.And(st.f["num_workers"].t >= 0, st.f["num_workers"].t <= st.f["work_capacity"].t,
+                                                   st.f["time_per_work_occupancy"].len == st.f["work_capacity"].t + 1,
+                                                   st.f["time_last_occupancy_change"].t <= st.now)),
+                              ("occupancy-consistent", st.f["num_workers"].t == z3.Select(
+                                  st.heap_arr("res_users"), st.f["worker_thread"].t))] + acc_clauses(st),
+        post=post,
+        modifies=tuple(TT + s_ for s_ in STATES4) + ("time_per_work_occupancy", "time_last_occupancy_change",
+                                                     "per_thread_total_time_in_blocked_state",
+                                                     "per_thread_total_time_in_processing_state"),
+        uses_inv=False, keeps_inv=False, props=("C17", "C20"))
+    con.loops = {0: FrameLoop(fields=("per_thread_total_time_in_blocked_state", "per_thread_total_time_in_processing_state"),
+                              props=("C17",))}
+    return con
+
+
 def mk_state_check(lib, cls, name):
     """check_thread_state_and_update_<x>_state(): recounts the worker states and moves the node to IDLE / PROCESSING /
     BLOCKED accordingly; its ValueError branch is unreachable because every listed worker is PROCESSING or BLOCKED
     (counting axiom A-count)."""
-    con = FnContract(name, [], post=lambda c: [Clause("state-known", lambda c: state_known(c.new), ("C17",))],
+    con = FnContract(name, [], post=lambda c: [
+        Clause("state-known", lambda c: state_known(c.new), ("C17",)),
+        Clause("no-live-worker-means-idle", lambda c: z3.Implies(c.old.f["worker_thread_list"].len == 0,
+                                                                  c.new.f["state"].t == sc("IDLE_STATE")), ("C17",)),
+        Clause("accounting-kept", lambda c: z3.Implies(acc_ok(c.old), z3.And(
+            acc_ok(c.new), c.new.f["stats.last_state_change_time"].val.t == c.old.now)), ("C17",))],
                      pre=lambda st, args: [("state-known", state_known(st)),
                                            ("threads-within-capacity", st.f["worker_thread_list"].len <= st.f["work_capacity"].t)],
                      modifies=("state", "stats.last_state_change_time", TT + "SETUP_STATE", TT + "IDLE_STATE",
@@ -66,7 +124,8 @@ def disposal_obligations(ob, st, head_f, it, blocking, waits_from=0, what="item"
 def worker_rely(lib, cls):
     def rely(st0, st1):
         g = z3.Function("wl_pos!%s" % _n(), z3.IntSort(), z3.IntSort())
-        return [("state-known", state_known(st1)),
+        return acc_clauses(st1) + [
+                ("state-known", state_known(st1)),
                 ("threads", z3.And(st1.f["worker_thread_list"].len >= 0, st1.f["worker_thread_list"].len <= st1.f["work_capacity"].t)),
                 ("occupancy", z3.And(st1.f["num_workers"].t >= 1, st1.f["num_workers"].t <= st1.f["work_capacity"].t,
                                      st1.f["time_per_work_occupancy"].len == st1.f["work_capacity"].t + 1,
@@ -104,6 +163,8 @@ def install(lib):
         C[cls]["_push_item"] = mk_push_item(lib, cls, False)
         nm = "check_thread_state_and_update_%s_state" % cls.lower()
         C[cls][nm] = mk_state_check(lib, cls, nm)
+    for cls in ("Splitter", "Combiner"):
+        C[cls]["update_final_state_time"] = mk_final_sc(lib, cls)
     C["Combiner"]["reset"] = mk_reset(lib, "Combiner", ("out",), extra_none=("processing_delay",))
     C["Splitter"]["reset"] = mk_reset(lib, "Splitter", ("in", "out"), extra_none=("processing_delay",))
     for cls in ("Splitter", "Combiner"):
@@ -134,6 +195,7 @@ def install(lib):
     cw.finish = comb_worker_finish
     cw.shared_fields = ACC
     cw.rely = worker_rely(lib, "Combiner")
+    cw.guarantee = acc_clauses
     cw.nshards = 6
     cw.slot_of = "req_token"
     cw.loops = {0: CancelLoop(lambda st: st.loc["chosen_put_event"].t), 1: ScanLoop("out_edges")}
@@ -200,6 +262,7 @@ def install(lib):
     sw.finish = split_finish
     sw.at_yield = split_at_yield
     sw.shared_fields = ACC
+    sw.guarantee = acc_clauses
     sw.rely = worker_rely(lib, "Splitter")
     sw.nshards = 8
     sw.slot_of = "req_token"
@@ -218,7 +281,8 @@ def install_behaviours(lib):
     def brely(st0, st1):
         k = len(st1.ghost.get("slots", []))
         cap = st1.f["work_capacity"].t
-        return [("state-known", state_known(st1)),
+        return acc_clauses(st1) + [
+                ("state-known", state_known(st1)),
                 ("K-Resource.threads-plus-own-slot-within-capacity", z3.And(
                     st1.f["worker_thread_list"].len >= 0, st1.f["worker_thread_list"].len + k <= cap)),
                 ("occupancy", z3.And(st1.f["num_workers"].t >= 0, st1.f["num_workers"].t + (1 if k >= 1 and not st1.ghost.get("occ_added") else 0) <= cap,
@@ -226,7 +290,8 @@ def install_behaviours(lib):
                                      st1.f["time_last_occupancy_change"].t <= st1.now))]
 
     def common_head(st, sides):
-        out = [("state-known", state_known(st)),
+        out = [(nm, cl, ("C17",)) for nm, cl in acc_clauses(st)] + [
+               ("state-known", state_known(st)),
                ("threads", z3.And(st.f["worker_thread_list"].len >= 0, st.f["worker_thread_list"].len <= st.f["work_capacity"].t)),
                ("occupancy", z3.And(st.f["num_workers"].t >= 0, st.f["num_workers"].t <= st.f["work_capacity"].t,
                                     st.f["time_per_work_occupancy"].len == st.f["work_capacity"].t + 1,
@@ -284,15 +349,16 @@ def install_behaviours(lib):
             ("start", z3.And(st.f["worker_thread_list"].len == 0, st.f["num_workers"].t == 0,
                              st.f["time_per_work_occupancy"].len == st.f["work_capacity"].t + 1,
                              st.f["time_last_occupancy_change"].t <= st.now, st.f["pallet_in_process"].isnone,
-                             st.f["item_in_process"].isnone, state_known(st)))],
+                             st.f["item_in_process"].isnone, state_known(st)))] + acc_clauses(st),
         excs=[ExcCase("AssertionError", lambda c: z3.BoolVal(True), "start-up-or-user-value-rejected", unchanged=False, props=("C20",), may=True),
               ExcCase("ValueError", lambda c: z3.BoolVal(True), "start-up-rejected", unchanged=False, props=("C20",), may=True),
               ExcCase("TypeError", lambda c: z3.BoolVal(True), "user-value-not-a-number", unchanged=False, props=("C20",), may=True)],
-        props=("C03", "C06", "C08", "C10", "C15", "C20"))
+        props=("C03", "C06", "C08", "C10", "C15", "C17", "C20"))
     sb.has_normal_exit = False
     sb.no_frame = True
     sb.shared_fields = ACC
     sb.rely = brely
+    sb.guarantee = acc_clauses
     sb.nshards = 8
     sb.loops = {0: ProcLoop(lib, "Splitter", sb_fields, back=s_back, head=s_head, props=("C03", "C08", "C10", "C15"),
                             heaps=("thread_state", "selector_kind"),
@@ -339,8 +405,14 @@ def install_behaviours(lib):
         return out
 
     def c_at_yield(ex, ordinal, ynode, value, st):
-        # the processing timeout (last timeout of a round) must be the delay drawn for this pallet
-        pass
+        # C17 (second sentence): while the node waits for the processing delay of a pallet, the time is charged to
+        # PROCESSING_STATE.  The processing timeout is the one whose delay is the value drawn for this pallet.
+        d = st.loc.get("next_processing_time")
+        if isinstance(value, VTimeout) and d is not None:
+            dn = V.as_num(d) if not isinstance(d, VDyn) else Num(d.num)
+            if dn.t.eq(value.delay.t) or z3.simplify(dn.t == value.delay.t).eq(z3.BoolVal(True)):
+                ex.ctx.oblige("processing-period-is-charged-to-PROCESSING_STATE@L%d" % ynode.lineno, st,
+                              [st.f["state"].t == sc("PROCESSING_STATE")], "yield", ynode.lineno, ("C17",))
     cb = FnContract(
         "behaviour", [], is_generator=True, uses_inv=False, keeps_inv=False,
         entry_assume=lambda st, args: edges_assumptions(st, "in_edges") + edges_assumptions(st, "out_edges") + [
@@ -350,17 +422,19 @@ def install_behaviours(lib):
                              st.f["item_in_process"].isnone, state_known(st))),
             ("A-recipe: one non-negative entry per in-edge", z3.And(
                 st.f["target_quantity_of_each_item"].len >= st.f["in_edges"].val.len)),
-            ("A-recipe.nonneg", V.forall_idx(st.f["target_quantity_of_each_item"], lambda i, q: q.t >= 0, "qty"))],
+            ("A-recipe.nonneg", V.forall_idx(st.f["target_quantity_of_each_item"], lambda i, q: q.t >= 0, "qty"))] + acc_clauses(st),
         excs=[ExcCase("AssertionError", lambda c: z3.BoolVal(True), "start-up-or-user-value-rejected", unchanged=False, props=("C20",), may=True),
               ExcCase("ValueError", lambda c: z3.BoolVal(True), "start-up-rejected", unchanged=False, props=("C20",), may=True),
               ExcCase("TypeError", lambda c: z3.BoolVal(True), "user-value-not-a-number", unchanged=False, props=("C20",), may=True),
               ExcCase("RuntimeError", lambda c: z3.BoolVal(True), "wrong-flow-item-type-on-an-in-edge", unchanged=False,
                       props=("C16", "C20"), may=True)],
-        props=("C03", "C08", "C10", "C16", "C20"))
+        props=("C03", "C08", "C10", "C16", "C17", "C20"))
     cb.has_normal_exit = False
     cb.no_frame = True
     cb.shared_fields = ACC
     cb.rely = brely
+    cb.guarantee = acc_clauses
+    cb.at_yield = c_at_yield
     cb.nshards = 8
     cb.loops = {0: ProcLoop(lib, "Combiner", cb_fields, back=c_back, head=c_head, props=("C03", "C08", "C10", "C16"),
                             heaps=("thread_state", "selector_kind", "flow_item_type"),
@@ -500,6 +574,10 @@ class RecipeConsumeLoop:
         st.f["item_in_process"] = _fresh_like(st.f["item_in_process"], tag + ".iip")
         if PI in st.f:
             st.f[PI] = _fresh_like(st.f[PI], tag + ".pi")
+        # the body waits: the node's other processes may have changed the shared accounting fields meanwhile
+        for fname in getattr(ex.ctx.con, "shared_fields", ()):
+            if fname in st.f:
+                st.f[fname] = _fresh_like(st.f[fname], "%s.%s" % (tag, fname))
         for nm in ("triggered_events_sum", "chosen_get_event", "token_index", "edge_index"):
             st.loc[nm] = None
         st.loc["triggered_events"] = VOpaque("any_of")
@@ -528,6 +606,9 @@ class RecipeConsumeLoop:
                    1 <= indx.at(j).t, indx.at(j).t < n,
                    sel(st, "resourcename", toks.at(j).t) == store_of_edge(st, ie.at(indx.at(j).t).t))), [L], "members")),
                ("time-nonneg", st.now >= 0)]
+        rel = getattr(ex.ctx.con, "rely", None)
+        if rel:
+            out += [("shared." + x[0], x[1]) for x in rel(st, st)]
         # every family token that has not been used yet is still in the list (so an empty list means all were used)
         if mode == "assume":
             posf = z3.Function("pos_in_remaining!%s" % _n(), z3.IntSort(), z3.IntSort())
